@@ -14,7 +14,7 @@
 (*   VH_MODE = "span"  compare overall span only      (C01)                *)
 (*             "caps"  compare every group            (C02, C15, ...)      *)
 (***************************************************************************)
-EXTENDS RefSem, TLC, Json, IOUtils
+EXTENDS Compile, VM, Json, IOUtils
 
 Rec   == ndJsonDeserialize(IOEnv.VH_RECS)
 Texts == LET T == ndJsonDeserialize(IOEnv.VH_TEXTS) IN [q \in 1..Len(T) |-> T[q].t]
@@ -39,8 +39,30 @@ ExpectedRows(ast, ng) ==
 
 LoggedRows(c) == { Trunc(c.rows[j]) : j \in 1..Len(c.rows) }
 
+(***************************************************************************)
+(* Patterns of the class of a known finding (F1: nullable unbounded loops) *)
+(* are NOT compared with RefSem -- that is the recorded finding -- but     *)
+(* they are not left unjudged either: the real library must do on them     *)
+(* exactly what the DESIGN MODEL does (Compile.tla program run by VM.tla,  *)
+(* delegated pieces by RefSem), so that any OTHER deviation inside the     *)
+(* class is still reported.  The model is run on the pattern that was      *)
+(* actually compiled (c.ast), for every text and offset.                   *)
+(***************************************************************************)
+DesignRows(ast, ng) ==
+   LET pr == TLCEval(Compile(ast, ng)) IN
+   IF pr.err # "" THEN {<<0, 0, -8>>}          \* the model compiler refuses the pattern: nothing to compare (never equals a logged row set of an ok record)
+   ELSE UNION { LET t == Texts[k]  o == Offs(t) IN
+                UNION { LET env == [prog |-> pr.p, ns |-> pr.ns, t |-> t, pos |-> o[p], skip |-> FALSE, limit |-> 1000000, maxstack |-> 1000000]
+                            fin == RunToEnd(InitState(env), env, 20000)
+                        IN IF fin.st = "match" THEN {Trunc(<<k, o[p], StMatch>> \o SubSeq(fin.saves, 1, 2 * ng + 2))}
+                           ELSE IF fin.st = "nomatch" THEN {}
+                           ELSE {<<k, o[p], -9>>}       \* the model ran out of fuel / hit a limit: reported, never equal to a logged row
+                        : p \in 0..Len(t) }
+                : k \in 1..Len(Texts) }
+
 VARIABLES l, nok, nrej, nexcl, ncerr, ncells, npos
 vars == <<l, nok, nrej, nexcl, ncerr, ncells, npos>>
+\* nexcl counts the records of a finding's class: judged against the design model instead of RefSem
 
 Init == l = 1 /\ nok = 0 /\ nrej = 0 /\ nexcl = 0 /\ ncerr = 0 /\ ncells = 0 /\ npos = 0
 
@@ -50,7 +72,7 @@ CellsPerPattern == SumCells(Len(Texts))
 Emit(tag, r) == PrintT("@@" \o tag \o " " \o ToJson(r))
 Pick(S) == IF S = {} THEN <<>> ELSE CHOOSE x \in S : TRUE
 
-Step ==
+TStep ==
    /\ l <= Len(Rec)
    /\ l' = l + 1
    /\ LET c == Rec[l] IN
@@ -58,7 +80,14 @@ Step ==
       THEN /\ ncerr' = ncerr + 1 /\ UNCHANGED <<nok, nrej, nexcl, ncells, npos>>
            /\ Emit("CERR", [id |-> c.id, pat |-> c.pat, ek |-> c.ek])
       ELSE IF Excluded(SemAst(c))
-      THEN /\ nexcl' = nexcl + 1 /\ UNCHANGED <<nok, nrej, ncerr, ncells, npos>>
+      THEN LET exp == TLCEval(DesignRows(c.ast, c.ng))
+               log == TLCEval(LoggedRows(c))
+           IN /\ nexcl' = nexcl + 1 /\ UNCHANGED <<nok, ncerr, ncells, npos>>
+              /\ IF exp = log THEN UNCHANGED nrej
+                 ELSE /\ nrej' = nrej + 1
+                      /\ Emit("REJECT", [id |-> c.id, pat |-> c.pat, ast |-> c.ast, base |-> c.ast, ng |-> c.ng, design |-> TRUE,
+                                              expected_not_logged |-> Pick(exp \ log),
+                                              logged_not_expected |-> Pick(log \ exp)])
       ELSE LET exp == TLCEval(ExpectedRows(SemAst(c), c.ng))
                log == TLCEval(LoggedRows(c))
            IN /\ ncells' = ncells + Cardinality(exp)
@@ -81,7 +110,7 @@ Done == /\ l = Len(Rec) + 1
                            matching_cells |-> ncells, patterns_with_match |-> npos, cells_per_pattern |-> CellsPerPattern])
         /\ UNCHANGED <<nok, nrej, nexcl, ncerr, ncells, npos>>
 
-Next == Step \/ Done
+Next == TStep \/ Done
 Spec == Init /\ [][Next]_vars
 \* every line consumed: diameter = records + 2 (initial state, one per record, Done)
 Consumed == TLCGet("stats").diameter = Len(Rec) + 2
